@@ -44,7 +44,8 @@ SEQ3 = [([0, 0, 0], [0, 0, 0]), ([0, 0, 1], [0, 0, 0]), ([0, 1, 0], [0, 0, 0]), 
 # after filling one slab of the 64-byte class (6 blocks) or the 32-byte class (12 blocks) completely: free one block and allocate again (the freed slot must be reused, no new slab),
 # allocate one more (a second slab is needed), free from the full slab then fill it again
 PRE = [(6, 64, [1, 0], [2, 0], 7), (6, 64, [0, 1], [0, 3], 7), (6, 64, [1, 1], [2, 5], 7), (12, 32, [1, 0], [2, 0], 5), (6, 64, [3, 0], [4, 0], 7), (6, 64, [1, 3], [3, 4], 7)]
-SEQ4 = [([0, 0, 1, 0], [0, 0, 0, 0]), ([0, 1, 0, 1], [0, 0, 0, 2]), ([0, 0, 3, 1], [0, 0, 0, 1]), ([0, 0, 0, 0], [0, 0, 0, 0])]
+# (four allocations in a row are not in the list: with two large sizes they need four mappings and the harness provisions three arenas)
+SEQ4 = [([0, 0, 1, 0], [0, 0, 0, 0]), ([0, 1, 0, 1], [0, 0, 0, 2]), ([0, 0, 3, 1], [0, 0, 0, 1]), ([0, 0, 0, 1], [0, 0, 0, 2])]
 def all_queries(tier):
     qs = []
     quick = tier == 'quick'
